@@ -234,6 +234,11 @@ class Builder:
         # Storing commands before an conditional statement
         self._pre_context_commands: Dict[int, List[T_Cmd]] = {}
         self._pre_context_registers: Dict[int, List[operand.Register]] = {}
+        # Handles that reserve the virtual IDs of an EPR context block while its
+        # body is being built (per loop register), and the qubit given to the body.
+        self._epr_context_qubits: Dict[
+            operand.Register, Tuple[List[Qubit], FutureQubit]
+        ] = {}
 
         self._label_mgr = LabelManager()
 
@@ -579,6 +584,7 @@ class Builder:
 
         q_id = qubit_ids_array.get_future_index(pair)
         q = FutureQubit(conn=self._connection, future_id=q_id)
+        self._epr_context_qubits[loop_register] = (qubit_futures, q)
 
         return pre_commands, loop_register, ent_results_array, q, pair
 
@@ -606,6 +612,13 @@ class Builder:
             loop_register=loop_register,
         )
         self._mem_mgr.remove_active_register(loop_register)
+
+        # If the body has measured or freed each pair's qubit, no qubit of this
+        # block is left at the end of the loop: give the reserved virtual IDs back.
+        ent_qubits, body_qubit = self._epr_context_qubits.pop(loop_register, ([], None))
+        if body_qubit is not None and not body_qubit.active:
+            for ent_qubit in ent_qubits:
+                ent_qubit.active = False
 
     def _assert_epr_args(
         self,
